@@ -50,7 +50,10 @@ def gen_case(rng, i):
         else:
             pre.append("o:%d:%d:%d:%s" % (s, a, p, rng.choice(["held", "held", "idle", "dead"])))
     # the same (transport name, local, remote) key cannot exist twice: outgoing conns get distinct local ports, fine
-    return ["k%d" % i, "c14", ",".join(unm), ",".join(facs), ",".join(pre), "%d:%d:%s" % (us, ua, uport)]
+    # URI parameters next to the target: the scheme and the port decide, a transport= parameter changes neither the default port nor
+    # the security requirement
+    up = rng.choice(["-", "-", "transport=tcp", "transport=udp", "transport=tls", "transport=TCP", "lr+transport=tcp+user=phone", "transport=ws", "lr"])
+    return ["k%d" % i, "c14", ",".join(unm), ",".join(facs), ",".join(pre), "%d:%d:%s:%s" % (us, ua, uport, up)]
 
 
 def gen_cases(rng, tier):
@@ -90,7 +93,7 @@ def oracle(case, impl):
         impl, _, pin = impl.partition("\tpin=")
         if pin.strip() != "ok":
             return ["three requests with one pinned target info (transport 10.0.0.77:7777, destination 192.0.2.50:7000) went out as %s: a pinned transport and destination are reused" % pin.strip()]
-    us, ua, uport = case[5].split(":")
+    us, ua, uport = case[5].split(":")[:3]
     secure = us == "1"
     want_port = int(uport) if uport != "-" else (5061 if secure else 5060)
     addrs = ["10.9.9.9", "10.8.8.8", "[2001:db8::9]"]
